@@ -262,6 +262,15 @@ class SuperProxy(object):
         self.obj = obj
 
 
+class MaybeUnbound(object):
+    """a local variable that is first assigned inside a loop body: after the loop it is bound iff `cond`;
+    reading it generates the obligation that it is bound (CPython raises UnboundLocalError otherwise)"""
+
+    def __init__(self, cond, value):
+        self.cond = cond
+        self.value = value
+
+
 class SymIter(object):
     """Iteration over a sequence of symbolic length: element(k) for 0 <= k < length."""
 
